@@ -207,7 +207,8 @@ def check_main(prop, tier, engine, engine_name, families, level, rule, assumptio
            'simulated_time': 'n/a - the system under test has no timers or clocks; progress is counted in steps',
            'seeds': {'VERIF_SEED': seed, 'derivation': 'sha256(VERIF_SEED|engine|family|index)'},
            'real_components': ['all of pybufrkit (decoder, scanner, tables, compiler, CLI main)', 'bitstring'],
-           'stub_components': ['producer / channel (simulator)', 'in-memory file system behind commands.open',
+           'stub_components': ['producer / channel (simulator)',
+                               'command line runs in-process (pybufrkit.main) on real files in a scratch directory',
                                'pass-through fault wrapper around tables.open (histsim only)'],
            'known_findings_hit': rep.known_hits, 'harness_errors': len(rep.harness),
            'repo_hash': core.repo_hash()}
